@@ -400,3 +400,187 @@ fn eqtab_replay() {
         println!("COMPLETED: top level {:?}, nested agrees: {}", top, bad.is_empty());
     }
 }
+
+// ---------------------------------------------------------------------------------------------
+// E3i replay (C20): a reference DERIVED from a lent `&mut` parent through a registered
+// `Fn(&mut SELF) -> &mut RET` / `Fn(&mut SELF) -> &RET` / `Fn(&mut SELF, ARG) -> &RET` must keep the
+// parent from being used mutably while the script holds it, and must be dead once the lending call
+// has ended.  Exercised for `Engine` and for `BuiltInModule` registrations.
+mod lend {
+    use steel::gc::unsafe_erased_pointers::CustomReference;
+    use steel::rvals::{Result, SteelVal};
+    use steel::steel_vm::builtin::BuiltInModule;
+    use steel::steel_vm::engine::Engine;
+    use steel::steel_vm::register_fn::{MarkerWrapper7, MarkerWrapper8, RegisterFn};
+
+    pub struct Item {
+        pub value: usize,
+    }
+    pub struct Shelf {
+        pub items: Vec<Item>,
+    }
+    impl Shelf {
+        fn first(&mut self) -> &Item {
+            &self.items[0]
+        }
+        fn first_mut(&mut self) -> &mut Item {
+            &mut self.items[0]
+        }
+        fn nth(&mut self, idx: usize) -> &Item {
+            &self.items[idx]
+        }
+        fn grow(&mut self) -> usize {
+            for i in 0..1024 {
+                self.items.push(Item { value: i });
+            }
+            self.items.len()
+        }
+    }
+    impl Item {
+        fn value(&self) -> usize {
+            self.value
+        }
+    }
+    impl CustomReference for Item {}
+    steel::custom_reference!(Item);
+    impl CustomReference for Shelf {}
+    steel::custom_reference!(Shelf);
+
+    fn engine(module: bool) -> Engine {
+        let mut engine = Engine::new();
+        if module {
+            let mut m = BuiltInModule::new("verif/lend");
+            RegisterFn::<_, MarkerWrapper8<(Shelf, Item, Item, Shelf)>, Item>::register_fn(&mut m, "shelf-first", Shelf::first);
+            RegisterFn::<_, MarkerWrapper8<(Shelf, usize, Item, Item, Shelf)>, Item>::register_fn(&mut m, "shelf-nth", Shelf::nth);
+            RegisterFn::<_, MarkerWrapper7<(Shelf, Item, Item, Shelf)>, Item>::register_fn(&mut m, "shelf-first-mut", Shelf::first_mut);
+            m.register_fn("shelf-grow!", Shelf::grow);
+            m.register_fn("item-value", Item::value);
+            engine.register_module(m);
+            engine.run("(require-builtin verif/lend)".to_string()).unwrap();
+        } else {
+            RegisterFn::<_, MarkerWrapper8<(Shelf, Item, Item, Shelf)>, Item>::register_fn(&mut engine, "shelf-first", Shelf::first);
+            RegisterFn::<_, MarkerWrapper8<(Shelf, usize, Item, Item, Shelf)>, Item>::register_fn(&mut engine, "shelf-nth", Shelf::nth);
+            RegisterFn::<_, MarkerWrapper7<(Shelf, Item, Item, Shelf)>, Item>::register_fn(&mut engine, "shelf-first-mut", Shelf::first_mut);
+            engine.register_fn("shelf-grow!", Shelf::grow);
+            engine.register_fn("item-value", Item::value);
+        }
+        engine
+    }
+
+    fn run(engine: &mut Engine, shelf: &mut Shelf, script: &'static str) -> Result<SteelVal> {
+        engine.run_thunk_with_reference::<Shelf, Shelf>(shelf, |engine, shelf| {
+            engine.register_value("*shelf*", shelf);
+            engine.compile_and_run_raw_program(script).map(|x| x.into_iter().last().unwrap_or(SteelVal::Void))
+        })
+    }
+
+    pub fn probe() -> Vec<String> {
+        let mut bad = Vec::new();
+        for module in [false, true] {
+            let how = if module { "BuiltInModule" } else { "Engine" };
+            for (shape, derive) in [("Fn(&mut SELF) -> &RET", "(shelf-first *shelf*)"), ("Fn(&mut SELF, ARG) -> &RET", "(shelf-nth *shelf* 1)"),
+                                    ("Fn(&mut SELF) -> &mut RET", "(shelf-first-mut *shelf*)")] {
+                let mut e = engine(module);
+                // sanity: the derived reference works inside the lending call
+                let mut shelf = Shelf { items: vec![Item { value: 7 }, Item { value: 8 }] };
+                let script: &'static str = Box::leak(format!("(define item {}) (item-value item)", derive).into_boxed_str());
+                match run(&mut e, &mut shelf, script) {
+                    Ok(SteelVal::IntV(7)) | Ok(SteelVal::IntV(8)) => {}
+                    other => {
+                        eprintln!("NOTE: {} via {}: derived reference unusable: {:?}", shape, how, other.map(|x| x.to_string()));
+                        continue;
+                    }
+                }
+                // (1) parent used mutably while the derived reference is held
+                let mut shelf = Shelf { items: vec![Item { value: 7 }, Item { value: 8 }] };
+                let script: &'static str = Box::leak(format!("(define item {}) (shelf-grow! *shelf*)", derive).into_boxed_str());
+                let r = run(&mut e, &mut shelf, script);
+                if r.is_ok() || shelf.items.len() != 2 {
+                    bad.push(format!("{} registered on {}: the parent was mutated (grew to {} items) while the script held a reference derived from it", shape, how, shelf.items.len()));
+                }
+                // (2) the derived reference used after the lending call has ended
+                let mut shelf = Shelf { items: vec![Item { value: 7 }, Item { value: 8 }] };
+                let script: &'static str = Box::leak(format!("(define stash {}) 1", derive).into_boxed_str());
+                let _ = run(&mut e, &mut shelf, script);
+                drop(shelf);
+                let r = e.compile_and_run_raw_program("(item-value stash)");
+                if r.is_ok() {
+                    bad.push(format!("{} registered on {}: a derived reference stashed in a global was still usable after the lending call ended", shape, how));
+                }
+            }
+        }
+        bad
+    }
+}
+
+#[test]
+fn lend_replay() {
+    let bad = lend::probe();
+    if !bad.is_empty() {
+        println!("OBSERVED: {}", bad.join("; "));
+    } else {
+        println!("COMPLETED: every derived reference blocked its parent and died with the lending call");
+    }
+}
+
+// ---------------------------------------------------------------------------------------------
+// E3j replay (C11): `equal?` on pairs of values of one kind (VERIF_EQ_PAIRS = "A|B|t;;A|B|f;;..."), on the
+// values themselves and nested in a list; an answer that differs from the expected one is the violation.
+#[test]
+fn eqsides_replay() {
+    let spec = std::env::var("VERIF_EQ_PAIRS").expect("VERIF_EQ_PAIRS");
+    let mut engine = Engine::new();
+    // shared sub-objects for the DAG pairs (globals, so that the same object really occurs twice)
+    engine
+        .run("(define ys-list (list 1 2)) (define ys-vec (immutable-vector 1 2)) (define ys-pair (cons 1 2)) (define ys-hash (hash 1 2)) (define ys-mvec (vector 1 2))".to_string())
+        .unwrap();
+    let mut bad = Vec::new();
+    for item in spec.split(";;").filter(|x| !x.trim().is_empty()) {
+        let parts: Vec<&str> = item.split('|').collect();
+        if parts.len() != 3 {
+            continue;
+        }
+        let (a, b, want) = (parts[0], parts[1], if parts[2] == "t" { "#true" } else { "#false" });
+        for src in [format!("(equal? {} {})", a, b), format!("(equal? (list {} 1) (list {} 1))", a, b)] {
+            let got = engine.run(src.clone()).map(|vals| vals.last().map(|v| v.to_string()).unwrap_or_default()).map_err(|e| e.to_string());
+            if got != Ok(want.to_string()) {
+                bad.push(format!("{} => {:?} (expected {})", src, got, want));
+            }
+        }
+    }
+    if bad.is_empty() {
+        println!("COMPLETED: all pairs answered as expected");
+    } else {
+        println!("OBSERVED: {}", bad.join("; "));
+    }
+}
+
+// ---------------------------------------------------------------------------------------------
+// E3d (bypass) replay, recycler: TWO instances of one lambda, each capturing a different function that was compiled
+// against an earlier definition; both definitions are then shadowed and global slots are recycled.  If the recycler
+// leaves a visit method early for the second instance, one of the captured functions loses its slot.
+#[test]
+fn recycler2_replay() {
+    let mut engine = Engine::new();
+    let mut eval = |src: String| -> Result<String, String> {
+        engine.run(src).map(|vals| vals.last().map(|v| v.to_string()).unwrap_or_default()).map_err(|e| e.to_string())
+    };
+    eval("(define (helper-a) 'old-a) (define (helper-b) 'old-b)".to_string()).unwrap();
+    eval("(define (make f) (lambda () (f)))".to_string()).unwrap();
+    eval("(define keep (list (make (lambda () (list (helper-a)))) (make (lambda () (list (helper-b))))))".to_string()).unwrap();
+    let call = "(list ((car keep)) ((cadr keep)))".to_string();
+    let before = eval(call.clone());
+    eval("(define (helper-a) 'new-a) (define (helper-b) 'new-b)".to_string()).unwrap();
+    for i in 0..1000 {
+        eval(format!("(define junk {})", i)).unwrap();
+    }
+    for i in 0..50 {
+        eval(format!("(define (intruder{}) 'intruder)", i)).unwrap();
+    }
+    let after = eval(call.clone());
+    if before == Ok("((old-a) (old-b))".to_string()) && after != before {
+        println!("OBSERVED: two instances of one lambda, each holding a function compiled against an earlier definition: after global slots were recycled they answered {:?} instead of ((old-a) (old-b))", after);
+    } else {
+        println!("COMPLETED: before {:?}, after {:?}", before, after);
+    }
+}
